@@ -124,7 +124,7 @@ class HllC11(W.WirePart):
                         no = norm_outcome(o)
                         key = "hll/%s/prefix/%s" % (path, no)
                         if "@" not in no:
-                            key += "/%s-%s" % (cls, kind)
+                            key += "/%s" % ("hll" if cls.startswith("hll") else cls)
                         bad.append((key, "prefix length %d of %d (%s %s): %s" % (n, len(img), cls, kind, o), i))
             elif l.startswith("COR "):
                 kind, hx, f = split_line(l)
@@ -137,7 +137,7 @@ class HllC11(W.WirePart):
                         no = norm_outcome(o)
                         key = "hll/%s/corrupt/%s" % (pathn, no)
                         if "@" not in no:
-                            key += "/%s-%s.%s" % (cls, kind, field_name(cls, int(pos)))
+                            key += "/%s.%s" % ("hll" if cls.startswith("hll") else cls, field_name(cls, int(pos)))
                         bad.append((key, "byte %s (%s) := 0x%s of a %s %s image: %s" % (pos, field_name(cls, int(pos)), val, cls, kind, o), i))
         # one entry per key and line
         seen, out = set(), []
